@@ -206,7 +206,7 @@ func depthInvariant(c *Checker, rule string) {
 				}
 				if len(e.Path) == 0 {
 					ok, detail = false, fmt.Sprintf("%s overwrites the whole header of an existing buffer at %s", shortFn(c.W, fn), c.effPos(e))
-				} else if e.Path[0] == fi.bitDepth || e.Path[0] == fi.channels {
+				} else if pathTouches(e.Path, fi.bitDepth) || pathTouches(e.Path, fi.channels) {
 					ok, detail = false, fmt.Sprintf("%s writes the bit depth / channel count of an existing buffer at %s", shortFn(c.W, fn), c.effPos(e))
 				}
 			}
@@ -227,26 +227,33 @@ func depthInvariant(c *Checker, rule string) {
 				}
 				fi := bufferFields(ob.Typ)
 				sv, isS := v.(StructV)
-				if fi == nil || !isS || fi.bitDepth >= len(sv.F) {
+				if fi == nil || !isS || fi.at(sv, fi.bitDepth) == nil {
 					okF, dF = false, fmt.Sprintf("%s builds a buffer header that cannot be resolved", shortFn(c.W, fn))
 					continue
 				}
 				nF++
-				t := valTerm(sv.F[fi.bitDepth])
+				t := valTerm(fi.at(sv, fi.bitDepth))
 				good := false
 				if t != nil {
 					ct := canon(t)
 					switch {
-					case ct.Op == OpAtom && strings.HasSuffix(ct.Name, ".bitDepth"):
+					case ct.Op == OpAtom && strings.HasSuffix(ct.Name, hdrLayout.depthSuffix()):
 						good = true
 					default:
-						if mn, mx, ok := sizeofRange(normInt(ct)); ok && mn.Sign() > 0 && mx.Cmp(big.NewInt(128)) <= 0 && !ct.IsConst() {
-							good = normInt(ct).Equal(polyAtom(sizeofAtomOf(ct)).Scale(big.NewInt(8)))
+						// a function of the element size that gives 8*size for every size a SignalTypes element can have
+						if a := sizeofAtomOf(ct); a.Name != "sizeof(?)" {
+							good = true
+							for _, sz := range []int64{1, 2, 4, 8} {
+								v := canon(ct.subst(map[string]*Term{a.Name: mkInt(sz, a.Typ)}))
+								if z, ok := normIntConst(v); !ok || z != 8*sz {
+									good = false
+								}
+							}
 						}
 					}
 				}
 				if !good {
-					okF, dF = false, fmt.Sprintf("%s builds a buffer header whose bit depth is %s (neither getBitDepth's 8*sizeof(T) nor a copy of another header's) at %s", shortFn(c.W, fn), pretty(canonOrNil(t)), c.pos(ob.Pos))
+					okF, dF = false, fmt.Sprintf("%s builds a buffer header whose bit depth is %s (neither 8*sizeof(T) for every element size nor a copy of another header's) at %s", shortFn(c.W, fn), pretty(canonOrNil(t)), c.pos(ob.Pos))
 				}
 			}
 		}
